@@ -551,7 +551,11 @@ fn check(rep: &mut Report, s: &Scen, o: &RunOut) {
                     // the documented clamp is by the peers that remain (at least 1)
                     let addressable = s.placements.iter().filter(|p| **p != Placement::NoAddress).count();
                     let need = if single_op && matches!(op, Op::PutRecordToPeers(_)) { want(*q, addressable) } else { 1 };
-                    if reached < need {
+                    // "sent" is what the statement asks for; the receipts are counted at the receiver. A
+                    // target behind a proxy that resets the connection after n bytes may have been sent
+                    // the data (the write succeeded) without ever receiving it: it counts as possibly sent.
+                    let lossy = s.placements.iter().enumerate().filter(|(i, p)| matches!(p, Placement::ResetAfterBytes(_)) && o.puts_received[*i] + o.providers_received[*i] + o.silent_received[*i] == 0).count();
+                    if reached + lossy < need {
                         rep.violation(
                             format!("C16/success-without-quorum/{opname}"),
                             format!("query {q:?} reported {} but only {reached} of {ntargets} target peers received the data (needed {need})", terms[0]),
